@@ -124,6 +124,59 @@ def verbatim_custom_rule(ctx, w):
                       f"(e.g. `Form-Data` becomes `form-data`) and the header does not survive the round trip")
 
 
+def query_scalar_rule(ctx, w):
+    """(thorough tier.) A field flattened into a request's query struct is deserialized from the key/value pairs of the query string, where every value
+    is a string. A hand-written visitor that takes the values as serde_json::Value and asks `as_bool()` / `as_u64()` .. gets None for `true` / `5`
+    written in a query, so the field silently decodes as something else (RoomNetwork::All as RoomNetwork::Matrix)."""
+    rule = "C16.query-scalars"
+    ctx.rule(rule, "types flattened into a RequestQuery: their hand-written visitors do not read scalars through serde_json::Value::as_bool / as_u64 / as_i64 / as_f64 "
+                   "(query values are strings)")
+    flat = {}
+    n_q = 0
+    for g in w.all_fns():
+        if "body" not in g or not re.search(r"RequestQuery>::deserialize::__Visitor.*::visit_map$", g["path"]):
+            continue
+        n_q += 1
+        for _, c in M.calls(g["body"]):
+            cn = M.callee_name(c)
+            fa = c.get("fnargs") or []
+            if cn.endswith("::deserialize") and "serde_core::de::Deserialize" in cn and fa and "FlatMapDeserializer" in " ".join(str(x) for x in c.get("args_ty", [])) + " ".join(fa) + cn or \
+               (cn.endswith("::deserialize") and "serde_core::de::Deserialize<'de> for " in cn and any("FlatMapDeserializer" in str(t) for t in g["body"]["locals"])
+                    and not fa[0].startswith(("core::", "alloc::", "js_int::", "ruma_common::identifiers"))):
+                flat.setdefault(fa[0], []).append(g)
+    ctx.floor("derived RequestQuery deserializers", n_q, 50)
+    n_t = 0
+    for ty, users in sorted(flat.items()):
+        de = [h for k, hs in w.fn_index.items() if k.endswith(f"Deserialize<'de> for {ty}>::deserialize") for h in hs if "body" in h]
+        if len(de) != 1 or any(k.startswith(de[0]["path"] + "::__Visitor") or "::__Visitor" in k and ty in k for k in w.fn_index):
+            continue                      # derived Deserialize: the derive reads through the typed deserializer
+        n_t += 1
+        vis = set()
+        for _, c in M.calls(de[0]["body"]):
+            if "Deserializer::deserialize_" in M.callee_name(c) or M.callee_name(c).rsplit("::", 1)[-1].startswith("deserialize_"):
+                vis.update(a for a in (c.get("fnargs") or []) if "Visitor" in a or "::" in a)
+        bad = []
+        for v in vis:
+            for k, hs in w.fn_index.items():
+                if k.startswith(f"<{v} as serde_core::de::Visitor<") :
+                    for h in hs:
+                        for body in (M.all_bodies(h) if "body" in h else []):
+                            for _, c2 in M.calls(body):
+                                cn2 = M.callee_name(c2)
+                                if cn2.startswith("serde_json::value::Value::") and cn2.rsplit("::", 1)[-1] in ("as_bool", "as_u64", "as_i64", "as_f64", "as_number"):
+                                    bad.append((h, cn2.rsplit("::", 1)[-1], c2["line"]))
+        key = f"{rule}:{ty}"
+        if bad:
+            h, meth, line = bad[0]
+            ctx.violation(rule, key, w.where(h, line),
+                          f"{ty} is flattened into the query of {sorted({PCkey(u['path']).split('::RequestQuery')[0][-70:] for u in users})[:2]} and its visitor reads a value with "
+                          f"serde_json::Value::{meth}(): in a query string the value is the string `true`, for which {meth}() is None - the field decodes as another value "
+                          f"(RoomNetwork::All comes back as RoomNetwork::Matrix)")
+        else:
+            ctx.ok(rule, key, w.where(de[0]), f"hand-written visitor(s) {sorted(vis)} read no scalar through Value::as_*")
+    ctx.floor("hand-written types flattened into a query", n_t, 1)
+
+
 def version_literal_rule(ctx, w):
     """The `metadata!` macro turns the version literals of an endpoint's history (`1.14 => "/path"`) into MatrixVersion values through
     MatrixVersion::from_parts; into_parts is its inverse. A wrong table entry records a path under another version, so select_path offers it to
@@ -570,6 +623,7 @@ def run(ctx):
     if ctx.tier == "thorough":
         header_write_rule(ctx, w)
         optional_header_rule(ctx, w)
+        query_scalar_rule(ctx, w)
         # query / body carrier structs of the API crates: an omitted field must be read back as the omitted value
         from . import C18 as _C18
         _C18.defaults_rule(ctx, w, "C16.defaults", {}, floor=1, only=lambda p_: "ruma_common::" not in p_.split(" for ", 1)[-1][:14])
